@@ -1,10 +1,11 @@
 #!/usr/bin/env python3
 """Confirm a seeded change produced by a sub-agent, in its scratch worktree (never in /repo):
  patch applies; the existing suite passes with it; the demo fails with it and passes without it.
- usage: confirm_seed.py <worktree> <k> <property id>      -> writes /verif/seeded/<id>_<k>/ when confirmed"""
+ usage: confirm_seed.py <worktree> <k> <property id> [k to store it under]      -> writes /verif/seeded/<id>_<k>/ when confirmed"""
 import json, os, re, shutil, subprocess, sys
 
 wt, k, pid = sys.argv[1], sys.argv[2], sys.argv[3]
+outk = sys.argv[4] if len(sys.argv) > 4 else k
 out = os.path.join(wt, "seed_out")
 patch, demo, meta = [os.path.join(out, f"{n}{k}.{e}") for n, e in (("patch", "diff"), ("demo", "rs"), ("meta", "md"))]
 env = dict(os.environ, CARGO_NET_OFFLINE="true")
@@ -47,7 +48,7 @@ ok = demo_fails and f2 == 0 and p2 > 0
 res["confirmed"] = ok
 print(json.dumps(res))
 if ok:
-    d = f"/verif/seeded/{pid}_{k}"
+    d = f"/verif/seeded/{pid}_{outk}"
     os.makedirs(d, exist_ok=True)
     shutil.copy(patch, os.path.join(d, "patch.diff"))
     shutil.copy(demo, os.path.join(d, "demo.rs"))
